@@ -145,6 +145,11 @@ impl<const N: usize> Ex<N> {
                 }
             }
         }
+        // history independence (C04): every fourth step, a freshly built twin with the same values
+        // (contiguous, front at slot 0) must be indistinguishable under read-only traversals
+        if self.fail.is_none() && self.faulted.is_none() && !self.window_panicked && self.cur % 4 == 1 {
+            self.check_twin(x);
+        }
         // RELOC (C20): only for calls that returned normally
         if self.fail.is_none() && self.faulted.is_none() && !self.window_panicked {
             if let Some(bound) = out.reloc_bound {
@@ -214,6 +219,66 @@ impl<const N: usize> Ex<N> {
         if self.fail.is_none() {
             self.poison();
         }
+    }
+
+    /// Builds a twin of buffer `x` holding equal values in a fresh layout and compares what
+    /// read-only traversals and comparisons observe (by value). A difference means the result
+    /// depends on the history by which the contents were reached.
+    fn check_twin(&mut self, x: usize) {
+        use std::fmt::Write as _;
+        use std::hash::{Hash, Hasher};
+        let vals: Vec<u32> = self.models[x].iter().map(|e| e.1).collect();
+        if vals.is_empty() {
+            return;
+        }
+        let mut twin: Box<crate::deque::Buf<N>> = Box::new(circular_buffer::CircularBuffer::new());
+        for v in &vals {
+            twin.push_back(Tracked::new(*v, crate::elem::Origin::Harness));
+        }
+        let len = vals.len();
+        let a = (self.cur * 3 + 1) % (len + 1);
+        let c = a + (self.cur * 7 + 2) % (len - a + 1);
+        let mut bx = self.bufs[x].take().unwrap();
+        let r = {
+            let b: &mut crate::deque::Buf<N> = &mut bx;
+            let t: &mut crate::deque::Buf<N> = &mut twin;
+            crate::elem::window(|| {
+                fn obs<const N: usize>(b: &mut crate::deque::Buf<N>, a: usize, c: usize) -> (Vec<u32>, Vec<u32>, Vec<u32>, Vec<u32>, Vec<u32>, String, u64) {
+                    let f1 = b.iter().fold(Vec::new(), |mut v, t| { v.push(t.val); v });
+                    let f2 = b.iter().rfold(Vec::new(), |mut v, t| { v.push(t.val); v });
+                    let f3 = b.iter_mut().fold(Vec::new(), |mut v, t| { v.push(t.val); v });
+                    let f4 = b.iter_mut().rfold(Vec::new(), |mut v, t| { v.push(t.val); v });
+                    let f5 = b.range(a..c).rev().fold(Vec::new(), |mut v, t| { v.push(t.val); v });
+                    let mut w = crate::deque_sess::HookWriter(String::new());
+                    let _ = write!(w, "{:?}", b);
+                    let mut h = crate::elem::RecHasher::new();
+                    b.hash(&mut h);
+                    (f1, f2, f3, f4, f5, w.0, h.finish())
+                }
+                let ob = obs(b, a, c);
+                let ot = obs(t, a, c);
+                (ob == ot, *b == *t, *t == *b, (*b).cmp(t))
+            })
+        };
+        self.bufs[x] = Some(bx);
+        self.allocs = 0;
+        let _ = crate::alloc::take_op_allocs();
+        match r {
+            Ok((same, e1, e2, ord)) => {
+                if !(same && e1 && e2 && ord == std::cmp::Ordering::Equal) {
+                    self.fail(
+                        cls::GARBAGE | cls::VIEW,
+                        format!("buffer {x} with values {vals:?} is distinguishable from a freshly built buffer with the same values (traversals/Debug/Hash equal: {same}, a==b {e1}, b==a {e2}, cmp {ord:?}): the result depends on the layout / history"),
+                    );
+                }
+            }
+            Err(_) => {
+                self.window_panicked = false;
+                self.fail(cls::VIEW | cls::PANIC_SPEC, "a read-only traversal or comparison panicked".into());
+            }
+        }
+        // the twin's elements are the harness's own
+        drop(twin);
     }
 
     /// Seam S3: overwrite every unoccupied slot of both buffers with the run's garbage pattern.
